@@ -232,6 +232,7 @@ func runGoSemStream(c *Ctx, n int) {
 	runGoSemFmtStream(c, n/2+1)   // io.Writer, fmt's padding, strings.Join, Time.Format (gosem_fmt.go)
 	runGoSemBeanStream(c, n/4+1)  // strings.HasPrefix, the regexp [^a-zA-Z], compare.Sort's guarantee, printer.New(w) and w as one sink (gosem_bean.go)
 	runGoSemFloatStream(c, n/4+1) // float64 as an exact rational on dyadic operands, x/0 as `undef` (gosem_float.go)
+	runGoSemTableStream(c, n/4+1) // (*color.Color).Fprintf, make([]T, n), encoding/csv.Writer (gosem_table.go)
 }
 
 func gosemB2i(b bool) int {
